@@ -70,6 +70,21 @@ def run_component_case(c, want_jac=True):
     ok, msg = close_vec(real_flat, mval, rtol=vtol, atol=c.get("vatol", 0.0))
     if not ok:
         out.append(dict(kind="value", component=c["name"], size=c["size"], detail=msg))
+    if c.get("pattern"):
+        # the declared sparsity arrays themselves (rows, cols and, for constant partials, val) against the transliterated pattern
+        pt = c["pattern"]
+        comp = prob.model.c
+        info = comp._subjacs_info.get((comp.pathname + "." + pt["of"], comp.pathname + "." + pt["wrt"]))
+        mp = core.model_value(pt["op"], pt["ints"], np.zeros(0))
+        if info is None or info.get("rows") is None:
+            out.append(dict(kind="pattern", component=c["name"], size=c["size"], detail="no declared rows/cols for (%s, %s)" % (pt["of"], pt["wrt"])))
+        else:
+            rows = np.asarray(info["rows"], dtype=float); cols = np.asarray(info["cols"], dtype=float)
+            parts = [rows, cols] + ([np.asarray(info["val"], dtype=float).ravel()] if pt.get("val", True) else [])
+            decl = np.concatenate(parts)
+            if decl.shape != mp.shape or not np.array_equal(decl, mp):
+                out.append(dict(kind="pattern", component=c["name"], size=c["size"],
+                                detail="declared rows/cols/val differ from the transliterated pattern: %s vs %s" % (decl.tolist()[:24], mp.tolist()[:24])))
     nontrivial = bool(np.any(np.abs(real_flat) > 0))
     return out, dict(nontrivial=nontrivial, hash=case_hash(c["name"], c["ints"], floats),
                      n_in=int(in_flat.size), n_out=int(real_flat.size))
